@@ -158,6 +158,103 @@ Proof.
         exfalso. eapply Hn. reflexivity.
 Qed.
 
+Lemma msg_get_del_none x n m : msg_get x m = None -> msg_get x (msg_del n m) = None.
+Proof.
+  induction m as [|[k w] r IH]; cbn; [reflexivity|].
+  destruct (k =? x) eqn:E; [discriminate|]. intros H. destruct (k =? n); [apply IH; exact H|].
+  cbn. rewrite E. apply IH. exact H.
+Qed.
+
+Lemma msg_get_clear_all_none x ns : forall m, msg_get x m = None -> msg_get x (msg_clear_all ns m) = None.
+Proof.
+  unfold msg_clear_all. induction ns as [|n r IH]; intros m H; cbn; [exact H|].
+  apply IH. apply msg_get_del_none. exact H.
+Qed.
+
+(* clearing the siblings does not change a field that is not a sibling, nor one that is absent *)
+Lemma msg_get_clear_all_abs x ns m : (~ In x ns \/ msg_get x m = None) -> msg_get x (msg_clear_all ns m) = msg_get x m.
+Proof.
+  intros [H | H]; [apply msg_get_clear_all_other; exact H|].
+  rewrite H. apply msg_get_clear_all_none. exact H.
+Qed.
+
+Lemma msg_get_set_abs x explicit sib n v m :
+  x <> n -> (~ In x sib \/ msg_get x m = None) -> msg_get x (msg_set explicit sib n v m) = msg_get x m.
+Proof.
+  intros Hx Hs. unfold msg_set.
+  assert (D : msg_get x (msg_del n m) = msg_get x m) by (apply msg_get_del_other; exact Hx).
+  assert (P : msg_get x (msg_put n v (msg_clear_all sib m)) = msg_get x m)
+    by (rewrite msg_get_put_other by exact Hx; apply msg_get_clear_all_abs; exact Hs).
+  destruct v as [| | | | | | |l|l]; try (destruct (negb explicit && _); assumption).
+  - destruct l; [exact D|]. destruct (negb explicit && _); assumption.
+  - destruct l; [exact D|]. destruct (negb explicit && _); assumption.
+Qed.
+
+Lemma msg_get_mutable_abs x sib n m :
+  x <> n -> (~ In x sib \/ msg_get x m = None) -> msg_get x (snd (msg_mutable sib n m)) = msg_get x m.
+Proof.
+  intros Hx Hs. unfold msg_mutable.
+  destruct (msg_get n m) as [[]|]; cbn [snd]; try reflexivity;
+    (rewrite msg_get_put_other by exact Hx; apply msg_get_clear_all_abs; exact Hs).
+Qed.
+
+(* the siblings of q's final field are absent from the message that holds it (when that message
+   exists): what property.CreateField's oneofConflict has checked *)
+Definition sib_absent (q sib : list N) (m : msg) : Prop :=
+  match holder_lookup q m with
+  | Some (h, _) => forall s0, In s0 sib -> msg_get s0 h = None
+  | None => True
+  end.
+
+(* with_holder on path q when q's siblings are absent: every path that diverges from q anywhere reads
+   the same value afterwards, oneof siblings included *)
+Lemma with_holder_frame_abs {A} (q : list N) sib (k : N -> msg -> outcome (msg * A)) :
+  (forall n h h' a, k n h = Ok (h', a) -> forall x, x <> n -> (~ In x sib \/ msg_get x h = None) ->
+                    msg_get x h' = msg_get x h) ->
+  forall p m m' a, indep p q [] -> sib_absent q sib m -> with_holder q m k = Ok (m', a) ->
+                   get_path p m' = get_path p m.
+Proof.
+  intros Hk. induction q as [|y q' IH]; intros p m m' a Hi Habs H; [destruct p; contradiction|].
+  destruct q' as [|y2 q''].
+  - destruct p as [|x p']; [contradiction|]. cbn [indep] in Hi. destruct Hi as [Hxy _].
+    cbn [with_holder] in H. unfold sib_absent in Habs. cbn [holder_lookup] in Habs.
+    assert (G : msg_get x m' = msg_get x m).
+    { eapply Hk; [exact H | exact Hxy |].
+      destruct (in_dec N.eq_dec x sib) as [Hin | Hnin]; [right; apply Habs; exact Hin | left; exact Hnin]. }
+    destruct p' as [|x2 p'']; cbn [get_path]; rewrite G; reflexivity.
+  - destruct p as [|x p']; [contradiction|].
+    change (with_holder (y :: y2 :: q'') m k) with
+      (let '(sub, m1) := msg_mutable [] y m in
+       obind (with_holder (y2 :: q'') sub k) (fun r => Ok (msg_put y (VMsg (fst r)) m1, snd r))) in H.
+    destruct (msg_mutable [] y m) as [sub m1] eqn:Em.
+    destruct (with_holder (y2 :: q'') sub k) as [[sub' a']| | |] eqn:Ew; try discriminate.
+    cbn [obind fst snd] in H. inversion H; subst m' a; clear H.
+    assert (Hm1 : forall z, z <> y -> msg_get z m1 = msg_get z m).
+    { intros z Hz. replace m1 with (snd (msg_mutable [] y m)) by (rewrite Em; reflexivity).
+      apply msg_get_mutable_other; [exact Hz | intros []]. }
+    assert (Hsub : msg_get y m = Some (VMsg sub) \/ (sub = [] /\ forall s0, msg_get y m <> Some (VMsg s0))).
+    { unfold msg_mutable in Em. destruct (msg_get y m) as [[]|]; inversion Em; subst;
+        try (right; split; [reflexivity|intros s0 Hc; discriminate]). left. reflexivity. }
+    assert (Habs' : sib_absent (y2 :: q'') sib sub).
+    { unfold sib_absent in *. destruct Hsub as [Hs | [Hs Hn]].
+      - change (holder_lookup (y :: y2 :: q'') m) with
+          (match msg_get y m with Some (VMsg s1) => holder_lookup (y2 :: q'') s1 | _ => None end) in Habs.
+        rewrite Hs in Habs. exact Habs.
+      - subst sub. destruct q'' as [|y3 q3]; cbn [holder_lookup]; [intros s0 _; reflexivity|]. cbn. exact I. }
+    cbn [indep] in Hi. destruct Hi as [Hxy | [Hxy Hi]].
+    + assert (G : msg_get x (msg_put y (VMsg sub') m1) = msg_get x m)
+        by (rewrite msg_get_put_other by exact Hxy; apply Hm1; exact Hxy).
+      destruct p' as [|x2 p'']; cbn [get_path]; rewrite G; reflexivity.
+    + subst x.
+      destruct p' as [|x2 p'']; [destruct q''; contradiction|].
+      rewrite !get_path_cons2. rewrite msg_get_put_same.
+      rewrite (IH (x2 :: p'') sub sub' a' Hi Habs' Ew).
+      destruct Hsub as [Hs | [Hs Hn]].
+      * rewrite Hs. reflexivity.
+      * subst sub. destruct (msg_get y m) as [[]|] eqn:Eg; try (destruct p''; reflexivity).
+        exfalso. eapply Hn. reflexivity.
+Qed.
+
 (* ... and q's own final field holds what the continuation left there *)
 Lemma with_holder_own {A} (q : list N) (k : N -> msg -> outcome (msg * A)) :
   q <> [] ->
@@ -253,6 +350,78 @@ Section Stored.
       apply msg_get_mutable_other; assumption.
   Qed.
 
+  (* a property with a proto path whose oneof siblings are absent (CreateField has checked): a path
+     that diverges from it anywhere reads the same afterwards *)
+  Lemma tr_present_frame_abs f d q v m m' :
+    p_path q <> [] -> oneof_conflict q m = false -> tr_present orc e f d q v m = Ok m' ->
+    forall p, indep p (p_path q) [] -> get_path p m' = get_path p m.
+  Proof.
+    intros Hq Hc H p Hi. destruct f as [|f]; [discriminate|]. rewrite tr_present_S in H.
+    assert (Habs : sib_absent (p_path q) (p_siblings q) m).
+    { unfold sib_absent. unfold oneof_conflict in Hc. destruct (holder_lookup (p_path q) m) as [[h0 n0]|]; [|exact I].
+      intros s0 Hs0. destruct (msg_get s0 h0) eqn:Eg; [|reflexivity]. exfalso.
+      assert (existsb (fun s1 => msg_has s1 h0) (p_siblings q) = true)
+        by (apply existsb_exists; exists s0; split; [exact Hs0 | unfold msg_has; rewrite Eg; reflexivity]).
+      congruence. }
+    assert (W : forall (k : N -> msg -> outcome (msg * unit)),
+               (forall n h h' a, k n h = Ok (h', a) -> forall x, x <> n -> (~ In x (p_siblings q) \/ msg_get x h = None) -> msg_get x h' = msg_get x h) ->
+               omap fst (with_holder (p_path q) m k) = Ok m' -> get_path p m' = get_path p m).
+    { intros k Hk Hw. apply omap_fst_ok in Hw. destruct Hw as [a Hw].
+      eapply with_holder_frame_abs; eassumption. }
+    destruct (p_ty q) as [k|ref|ref|ref|item|item|pb].
+    - destruct (is_container v); [discriminate|].
+      destruct (scalar_from_go orc k (goval_of_json v)) as [x| | |]; try discriminate. cbn [obind] in H.
+      eapply W; [|exact H]. intros n h h' a Hk x0 Hx Hs.
+      destruct x; injection Hk as Hh _; subst h'; [apply msg_get_set_abs | apply msg_get_del_other]; assumption.
+    - destruct v; try discriminate. destruct (lookup e ref) as [[| |prefix opts]|]; try discriminate.
+      destruct (option_by_name prefix opts s); [|discriminate].
+      eapply W; [|exact H]. intros n h h' a Hk x0 Hx Hs. injection Hk as Hh _; subst h'.
+      exact (msg_get_set_abs x0 (p_explicit q) (p_siblings q) n (VEnum z) h Hx Hs).
+    - destruct v; try discriminate. destruct (lookup e ref) as [[props| |]|]; try discriminate.
+      eapply W; [|exact H]. intros n h h' a Hk x0 Hx Hs. cbv beta in Hk.
+      destruct (msg_mutable (p_siblings q) n h) as [sub h1] eqn:Em.
+      destruct (tr_object orc e f d props members sub []); try discriminate. cbn [obind] in Hk. injection Hk as Hh _; subst h'.
+      rewrite msg_get_put_other by exact Hx.
+      replace h1 with (snd (msg_mutable (p_siblings q) n h)) by (rewrite Em; reflexivity).
+      apply msg_get_mutable_abs; assumption.
+    - destruct v; try discriminate. destruct (lookup e ref) as [[|props|]|]; try discriminate.
+      destruct (p_path q) as [|n0 path0] eqn:Ep; [congruence|].
+      eapply W; [|exact H]. intros n h h' a Hk x0 Hx Hs. cbv beta in Hk.
+      destruct (msg_mutable (p_siblings q) n h) as [sub h1] eqn:Em.
+      destruct (tr_oneof orc e f d props members sub [] [] None); try discriminate. cbn [obind] in Hk. injection Hk as Hh _; subst h'.
+      rewrite msg_get_put_other by exact Hx.
+      replace h1 with (snd (msg_mutable (p_siblings q) n h)) by (rewrite Em; reflexivity).
+      apply msg_get_mutable_abs; assumption.
+    - destruct v; try discriminate.
+      assert (G : forall l, omap fst (with_holder (p_path q) m (fun n h =>
+                   let existing := match msg_get n h with Some (VList l0) => l0 | _ => [] end in
+                   obind (tr_array orc e f d item l existing) (fun l1 =>
+                     Ok (msg_set true (p_siblings q) n (VList l1) h, tt)))) = Ok m' ->
+                 get_path p m' = get_path p m).
+      { intros l Hw. eapply W; [|exact Hw]. intros n h h' a Hk x0 Hx Hs. cbv beta zeta in Hk.
+        destruct (tr_array orc e f d item l _) as [l1| | |]; try discriminate. cbn [obind] in Hk. injection Hk as Hh _; subst h'.
+        exact (msg_get_set_abs x0 true (p_siblings q) n (VList l1) h Hx Hs). }
+      destruct item; try discriminate; eapply G; exact H.
+    - destruct v; try discriminate.
+      assert (G : forall l, omap fst (with_holder (p_path q) m (fun n h =>
+                   let existing := match msg_get n h with Some (VMap l0) => l0 | _ => [] end in
+                   obind (tr_map orc e f d item l existing) (fun l1 =>
+                     Ok (msg_set true (p_siblings q) n (VMap l1) h, tt)))) = Ok m' ->
+                 get_path p m' = get_path p m).
+      { intros l Hw. eapply W; [|exact Hw]. intros n h h' a Hk x0 Hx Hs. cbv beta zeta in Hk.
+        destruct (tr_map orc e f d item l _) as [l1| | |]; try discriminate. cbn [obind] in Hk. injection Hk as Hh _; subst h'.
+        exact (msg_get_set_abs x0 true (p_siblings q) n (VMap l1) h Hx Hs). }
+      destruct item; try discriminate; eapply G; exact H.
+    - destruct v; try discriminate.
+      eapply W; [|exact H]. intros n h h' a Hk x0 Hx Hs. cbv beta in Hk.
+      destruct (msg_mutable (p_siblings q) n h) as [sub h1] eqn:Em.
+      destruct (tr_any_body members None None) as [[value ty]| | |]; try discriminate. cbn [obind fst snd] in Hk.
+      destruct ty; try discriminate. destruct value; try discriminate. destruct pb; try discriminate.
+      injection Hk as Hh _; subst h'. rewrite msg_get_put_other by exact Hx.
+      replace h1 with (snd (msg_mutable (p_siblings q) n h)) by (rewrite Em; reflexivity).
+      apply msg_get_mutable_abs; assumption.
+  Qed.
+
   (* ---------------------------------------------------------------- own field of a scalar member *)
   Definition stored_scalar (p : property) (x : option pval) : option pval :=
     match x with
@@ -288,7 +457,7 @@ Section Stored.
         end
       | _ => True
       end
-    | path => indep p path (p_siblings q)
+    | path => indep p path []     (* siblings: CreateField's conflict check has made sure they are absent *)
     end.
 
   Lemma find_prop_In props key q : find_prop props key = Some q -> In q props /\ bytes_eqb (p_json q) key = true.
@@ -312,15 +481,15 @@ Section Stored.
   Qed.
 
   Lemma tr_member_frame d q v m seen m' seen' p (dp : jvalue -> msg -> outcome msg) :
-    (forall m0 m1, dp v m0 = Ok m1 -> get_path p m1 = get_path p m0) ->
+    (forall m0 m1, oneof_conflict q m0 = false -> dp v m0 = Ok m1 -> get_path p m1 = get_path p m0) ->
     tr_member d dp q v m seen = Ok (m', seen') -> get_path p m' = get_path p m.
   Proof.
     intros Hdp H. unfold tr_member in H. destruct (max_nesting_depth <? d + 1)%N; [discriminate|].
     destruct v; try (inversion H; subst; reflexivity);
       (destruct (mem_bytes (p_json q) seen); [discriminate|]);
-      (destruct (oneof_conflict q m); [discriminate|]);
+      (destruct (oneof_conflict q m) eqn:Ec; [discriminate|]);
       match type of H with context[dp ?v m] => destruct (dp v m) as [m1| | |] eqn:E end; try discriminate;
-      cbn [obind] in H; inversion H; subst; eapply Hdp; exact E.
+      cbn [obind] in H; inversion H; subst; (eapply Hdp; [exact Ec | exact E]).
   Qed.
 
   (* the body of an (exposed) oneof whose arms all have proto paths independent of p *)
@@ -347,14 +516,14 @@ Section Stored.
         destruct (tr_member d (tr_present orc e f (d + 1) q) q v m seen) as [[m1 seen1]| | |] eqn:Em; try discriminate.
         cbn [obind fst snd] in H.
         rewrite (IH _ _ _ _ _ _ _ H).
-        eapply tr_member_frame; [|exact Em]. intros m0 m2 Hd. eapply tr_present_frame; eassumption.
+        eapply tr_member_frame; [|exact Em]. intros m0 m2 _ Hd. eapply tr_present_frame; eassumption.
   Qed.
 
   (* one member's decode, for any property (exposed oneofs included) *)
   Lemma tr_present_frame_any f d q v m m' p :
-    indep_prop p q -> tr_present orc e f d q v m = Ok m' -> get_path p m' = get_path p m.
+    indep_prop p q -> oneof_conflict q m = false -> tr_present orc e f d q v m = Ok m' -> get_path p m' = get_path p m.
   Proof.
-    intros Hi H. unfold indep_prop in Hi.
+    intros Hi Hc H. unfold indep_prop in Hi.
     destruct (p_path q) as [|n0 path0] eqn:Ep.
     - destruct f as [|f]; [discriminate|]. rewrite tr_present_S in H.
       destruct (p_ty q) as [k|ref|ref|ref|item|item|pb].
@@ -370,7 +539,7 @@ Section Stored.
       + destruct v; try discriminate. rewrite Ep in H. destruct item; discriminate.
       + destruct v; try discriminate. rewrite Ep in H. destruct item; discriminate.
       + destruct v; try discriminate. rewrite Ep in H. discriminate.
-    - eapply tr_present_frame; [rewrite Ep; discriminate | exact H | rewrite Ep; exact Hi].
+    - eapply tr_present_frame_abs; [rewrite Ep; discriminate | exact Hc | exact H | rewrite Ep; exact Hi].
   Qed.
 
   (* an object body all of whose properties are independent of p *)
@@ -383,6 +552,267 @@ Section Stored.
     destruct (find_prop_In _ _ _ Eq) as [Hin _].
     destruct (tr_member d (tr_present orc e f (d + 1) q) q v m seen) as [[m1 seen1]| | |] eqn:Em; try discriminate.
     cbn [obind fst snd] in H. rewrite (IH _ _ _ _ _ H).
-    eapply tr_member_frame; [|exact Em]. intros m0 m2 Hd. eapply tr_present_frame_any; [apply Hps; exact Hin | exact Hd].
+    eapply tr_member_frame; [|exact Em]. intros m0 m2 Hc Hd. eapply tr_present_frame_any; [apply Hps; exact Hin | exact Hc | exact Hd].
+  Qed.
+
+  (* ---------------------------------------------------------------- every non-null scalar member is stored *)
+  Lemma bytes_eqb_eq a : forall b, bytes_eqb a b = true <-> a = b.
+  Proof.
+    induction a as [|x r IH]; intros [|y s]; cbn; split; intros H; try reflexivity; try discriminate.
+    - apply andb_prop in H. destruct H as [H1 H2]. apply N.eqb_eq in H1. apply IH in H2. subst. reflexivity.
+    - inversion H; subst. rewrite N.eqb_refl. cbn. apply IH. reflexivity.
+  Qed.
+
+  Lemma mem_bytes_differ a b seen : mem_bytes a seen = true -> mem_bytes b seen = false -> bytes_eqb a b = false.
+  Proof.
+    intros Ha Hb. destruct (bytes_eqb a b) eqn:E; [|reflexivity].
+    apply bytes_eqb_eq in E. subst. congruence.
+  Qed.
+
+  (* distinct properties of a set write to independent places *)
+  Definition props_separate (props : list property) : Prop :=
+    forall q1 q2, In q1 props -> In q2 props -> bytes_eqb (p_json q1) (p_json q2) = false ->
+                  p_path q1 <> [] -> indep_prop (p_path q1) q2.
+
+  (* once a member's property has its value, the rest of the object body leaves its field alone *)
+  Lemma tail_preserves props p : props_separate props -> In p props -> p_path p <> [] ->
+    forall f d ms m seen m', mem_bytes (p_json p) seen = true ->
+    tr_object orc e f d props ms m seen = Ok m' -> get_path (p_path p) m' = get_path (p_path p) m.
+  Proof.
+    intros Hsep Hin Hq. induction f as [|f IH]; intros d ms m seen m' Hseen H; [discriminate|].
+    rewrite tr_object_S in H. destruct ms as [|[key v] r]; [inversion H; reflexivity|].
+    destruct (find_prop props key) as [q|] eqn:Eq; [|discriminate].
+    destruct (find_prop_In _ _ _ Eq) as [Hinq _].
+    destruct (tr_member d (tr_present orc e f (d + 1) q) q v m seen) as [[m1 seen1]| | |] eqn:Em; try discriminate.
+    cbn [obind fst snd] in H.
+    assert (Hs1 : mem_bytes (p_json p) seen1 = true /\ get_path (p_path p) m1 = get_path (p_path p) m).
+    { unfold tr_member in Em. destruct (max_nesting_depth <? d + 1)%N; [discriminate|].
+      destruct v; try (inversion Em; subst; split; [exact Hseen|reflexivity]);
+        (destruct (mem_bytes (p_json q) seen) eqn:Eqs; [discriminate|]);
+        (destruct (oneof_conflict q m) eqn:Ecf; [discriminate|]);
+        match type of Em with context[tr_present orc e f (d + 1) q ?v m] =>
+          destruct (tr_present orc e f (d + 1) q v m) as [m2| | |] eqn:Ep end; try discriminate;
+        cbn [obind] in Em; inversion Em; subst;
+        (split; [cbn [mem_bytes]; rewrite Hseen; apply orb_true_r |
+                 (eapply tr_present_frame_any; [|exact Ecf|exact Ep]);
+                 apply Hsep; try assumption; eapply mem_bytes_differ; eassumption]). }
+    destruct Hs1 as [Hs1 Hg1]. rewrite (IH _ _ _ _ _ Hs1 H). exact Hg1.
+  Qed.
+
+  Theorem scalar_member_stored props : props_separate props ->
+    forall f d ms m seen m', tr_object orc e f d props ms m seen = Ok m' ->
+    forall key v p k, In (key, v) ms -> v <> JNull -> find_prop props key = Some p ->
+      p_ty p = FScalar k -> p_path p <> [] ->
+      exists x, scalar_from_go orc k (goval_of_json v) = Ok x /\ get_path (p_path p) m' = stored_scalar p x.
+  Proof.
+    intros Hsep. induction f as [|f IH]; intros d ms m seen m' H key v p k Hin Hv Hp Hk Hq; [discriminate|].
+    rewrite tr_object_S in H. destruct ms as [|[key0 v0] r]; [contradiction|].
+    destruct (find_prop props key0) as [q|] eqn:Eq; [|discriminate].
+    destruct (tr_member d (tr_present orc e f (d + 1) q) q v0 m seen) as [[m1 seen1]| | |] eqn:Em; try discriminate.
+    cbn [obind fst snd] in H.
+    destruct Hin as [Heq | Hin]; [|eapply IH; eassumption].
+    inversion Heq; subst key0 v0; clear Heq. rewrite Hp in Eq. inversion Eq; subst q; clear Eq.
+    destruct (find_prop_In _ _ _ Hp) as [Hinp _].
+    unfold tr_member in Em. destruct (max_nesting_depth <? d + 1)%N; [discriminate|].
+    assert (G : exists m2, tr_present orc e f (d + 1) p v m = Ok m2 /\ m1 = m2 /\ seen1 = p_json p :: seen).
+    { destruct v; try congruence;
+        (destruct (mem_bytes (p_json p) seen); [discriminate|]);
+        (destruct (oneof_conflict p m); [discriminate|]);
+        match type of Em with context[tr_present orc e f (d + 1) p ?v m] =>
+          destruct (tr_present orc e f (d + 1) p v m) as [m2| | |] eqn:Ep end; try discriminate;
+        cbn [obind] in Em; inversion Em; subst; eauto. }
+    destruct G as (m2 & Ep & -> & ->).
+    destruct (scalar_member_own f (d + 1) p k v m m2 Hk Hq Ep) as (x & Hx & Hg).
+    exists x. split; [exact Hx|].
+    rewrite (tail_preserves props p Hsep Hinp Hq f d r m2 (p_json p :: seen) m'); [exact Hg | | exact H].
+    cbn [mem_bytes]. replace (bytes_eqb (p_json p) (p_json p)) with true; [reflexivity|].
+    symmetry. apply bytes_eqb_eq. reflexivity.
+  Qed.
+
+  (* ---------------------------------------------------------------- arrays: every element, in order *)
+  Theorem array_elements_stored k : forall f d js acc l,
+    tr_array orc e f d (FScalar k) js acc = Ok l ->
+    exists vals, l = acc ++ vals /\
+      Forall2 (fun j x => is_container j = false /\ scalar_from_go orc k (goval_of_json j) = Ok (Some x)) js vals.
+  Proof.
+    induction f as [|f IH]; intros d js acc l H; [discriminate|].
+    rewrite tr_array_S in H. destruct js as [|v r].
+    - inversion H; subst. exists []. split; [rewrite app_nil_r; reflexivity|constructor].
+    - destruct (is_container v) eqn:Ec; [discriminate|].
+      destruct (scalar_from_go orc k (goval_of_json v)) as [[x|]| | |] eqn:Es; try discriminate.
+      cbn [obind list_append] in H. apply IH in H. destruct H as (vals & -> & HF).
+      exists (x :: vals). split; [rewrite <- app_assoc; reflexivity|]. constructor; [split; assumption|exact HF].
+  Qed.
+
+  (* the own field of an array-of-scalars member: the list of all converted elements *)
+  Lemma array_member_own f d p k v m m1 :
+    p_ty p = FArray (FScalar k) -> p_path p <> [] -> tr_present orc e f d p v m = Ok m1 ->
+    exists js l, v = JArr js /\ get_path (p_path p) m1 = stored_form true (VList l) /\
+      exists base vals, l = base ++ vals /\
+        Forall2 (fun j x => is_container j = false /\ scalar_from_go orc k (goval_of_json j) = Ok (Some x)) js vals.
+  Proof.
+    intros Hk Hq H. destruct f as [|f]; [discriminate|]. rewrite tr_present_S in H. rewrite Hk in H.
+    destruct v as [| | | |js|]; try discriminate. exists js.
+    apply omap_fst_ok in H. destruct H as [a H].
+    destruct (with_holder_own (p_path p) _ Hq m m1 a H) as (n & h & h' & _ & Hkk & Hg).
+    cbv beta zeta in Hkk.
+    destruct (tr_array orc e f d (FScalar k) js _) as [l| | |] eqn:Ea; try discriminate.
+    cbn [obind] in Hkk. injection Hkk as Hh _. subst h'.
+    exists l. split; [reflexivity|]. split.
+    - rewrite Hg. exact (msg_get_set_same true (p_siblings p) n (VList l) h).
+    - apply array_elements_stored in Ea. destruct Ea as (vals & -> & HF). eauto.
+  Qed.
+
+  (* ---------------------------------------------------------------- maps: every entry, keys as written *)
+  Lemma map_set_fresh key v acc : map_get key acc = None -> map_set key v acc = acc ++ [(key, v)].
+  Proof.
+    induction acc as [|[k w] r IH]; cbn; [reflexivity|].
+    destruct (bytes_eqb k key); [discriminate|]. intros H. rewrite IH by exact H. reflexivity.
+  Qed.
+
+  Theorem map_entries_stored k : forall f d ms acc l,
+    tr_map orc e f d (FScalar k) ms acc = Ok l ->
+    exists vals, l = acc ++ vals /\
+      Forall2 (fun kv kx => fst kx = fst kv /\ is_container (snd kv) = false /\
+                            scalar_from_go orc k (goval_of_json (snd kv)) = Ok (Some (snd kx))) ms vals.
+  Proof.
+    induction f as [|f IH]; intros d ms acc l H; [discriminate|].
+    rewrite tr_map_S in H. destruct ms as [|[key v] r].
+    - inversion H; subst. exists []. split; [rewrite app_nil_r; reflexivity|constructor].
+    - destruct (map_get key acc) eqn:Eg; [discriminate|].
+      destruct (is_container v) eqn:Ec; [discriminate|].
+      destruct (scalar_from_go orc k (goval_of_json v)) as [[x|]| | |] eqn:Es; try discriminate.
+      cbn [obind map_set_value] in H. rewrite (map_set_fresh key x acc Eg) in H.
+      apply IH in H. destruct H as (vals & -> & HF).
+      exists ((key, x) :: vals). split; [rewrite <- app_assoc; reflexivity|].
+      constructor; [cbn; repeat split; assumption|exact HF].
+  Qed.
+
+  (* arrays of objects: one sub-message per element, each the decode of that element, in order *)
+  Theorem array_objects_stored ref props : lookup e ref = Some (SObject props) ->
+    forall f d js acc l, tr_array orc e f d (FObject ref) js acc = Ok l ->
+    exists subs, l = acc ++ map VMsg subs /\
+      Forall2 (fun j sub => exists ms f', j = JObj ms /\ tr_object orc e f' d props ms [] [] = Ok sub) js subs.
+  Proof.
+    intros Hl. induction f as [|f IH]; intros d js acc l H; [discriminate|].
+    rewrite tr_array_S in H. destruct js as [|v r].
+    - inversion H; subst. exists []. split; [rewrite app_nil_r; reflexivity|constructor].
+    - rewrite Hl in H. destruct v as [| | | | |ms]; try discriminate.
+      destruct (tr_object orc e f d props ms [] []) as [sub| | |] eqn:Eo; try discriminate.
+      cbn [obind] in H. apply IH in H. destruct H as (subs & -> & HF).
+      exists (sub :: subs). split; [rewrite <- app_assoc; reflexivity|].
+      constructor; [eauto|exact HF].
+  Qed.
+
+  (* ---------------------------------------------------------------- nested objects: the sub-message is the decode of the sub-object *)
+  Lemma object_member_own f d p ref v m m1 :
+    p_ty p = FObject ref -> p_path p <> [] -> tr_present orc e f d p v m = Ok m1 ->
+    exists ms props sub0 sub' f', v = JObj ms /\ lookup e ref = Some (SObject props) /\
+      tr_object orc e f' d props ms sub0 [] = Ok sub' /\ get_path (p_path p) m1 = Some (VMsg sub').
+  Proof.
+    intros Hk Hq H. destruct f as [|f]; [discriminate|]. rewrite tr_present_S in H. rewrite Hk in H.
+    destruct v as [| | | | |ms]; try discriminate.
+    destruct (lookup e ref) as [[props| |]|] eqn:El; try discriminate.
+    apply omap_fst_ok in H. destruct H as [a H].
+    destruct (with_holder_own (p_path p) _ Hq m m1 a H) as (n & h & h' & _ & Hkk & Hg).
+    cbv beta in Hkk. destruct (msg_mutable (p_siblings p) n h) as [sub0 h1].
+    destruct (tr_object orc e f d props ms sub0 []) as [sub'| | |] eqn:Eo; try discriminate.
+    cbn [obind] in Hkk. injection Hkk as Hh _. subst h'.
+    exists ms, props, sub0, sub', f. repeat split; try assumption.
+    rewrite Hg. apply msg_get_put_same.
+  Qed.
+
+  (* ---------------------------------------------------------------- any member: decoded, and what it stored is kept *)
+  Theorem member_survives props : props_separate props ->
+    forall f d ms m seen m', tr_object orc e f d props ms m seen = Ok m' ->
+    forall key v p, In (key, v) ms -> v <> JNull -> find_prop props key = Some p -> p_path p <> [] ->
+    exists f0 m0 m1, tr_present orc e f0 (d + 1) p v m0 = Ok m1 /\
+                     get_path (p_path p) m' = get_path (p_path p) m1.
+  Proof.
+    intros Hsep. induction f as [|f IH]; intros d ms m seen m' H key v p Hin Hv Hp Hq; [discriminate|].
+    rewrite tr_object_S in H. destruct ms as [|[key0 v0] r]; [contradiction|].
+    destruct (find_prop props key0) as [q|] eqn:Eq; [|discriminate].
+    destruct (tr_member d (tr_present orc e f (d + 1) q) q v0 m seen) as [[m1 seen1]| | |] eqn:Em; try discriminate.
+    cbn [obind fst snd] in H.
+    destruct Hin as [Heq | Hin]; [|eapply IH; eassumption].
+    inversion Heq; subst key0 v0; clear Heq. rewrite Hp in Eq. inversion Eq; subst q; clear Eq.
+    destruct (find_prop_In _ _ _ Hp) as [Hinp _].
+    unfold tr_member in Em. destruct (max_nesting_depth <? d + 1)%N; [discriminate|].
+    assert (G : exists m2, tr_present orc e f (d + 1) p v m = Ok m2 /\ m1 = m2 /\ seen1 = p_json p :: seen).
+    { destruct v; try congruence;
+        (destruct (mem_bytes (p_json p) seen); [discriminate|]);
+        (destruct (oneof_conflict p m); [discriminate|]);
+        match type of Em with context[tr_present orc e f (d + 1) p ?v m] =>
+          destruct (tr_present orc e f (d + 1) p v m) as [m2| | |] eqn:Ep end; try discriminate;
+        cbn [obind] in Em; inversion Em; subst; eauto. }
+    destruct G as (m2 & Ep & -> & ->).
+    exists f, m, m2. split; [exact Ep|].
+    apply (tail_preserves props p Hsep Hinp Hq f d r m2 (p_json p :: seen) m'); [|exact H].
+    cbn [mem_bytes]. replace (bytes_eqb (p_json p) (p_json p)) with true; [reflexivity|].
+    symmetry. apply bytes_eqb_eq. reflexivity.
   Qed.
 End Stored.
+
+(* ---------------------------------------------------------------- the schema condition is decidable *)
+Lemma indep_b_sound p : forall q sib, indep_b p q sib = true -> indep p q sib.
+Proof.
+  induction p as [|x p' IH]; intros q sib H; [destruct q; discriminate|].
+  destruct q as [|y q']; [discriminate|]. destruct q' as [|y2 q''].
+  - cbn in H. apply andb_prop in H. destruct H as [H1 H2]. cbn. split.
+    + intros ->. rewrite N.eqb_refl in H1. discriminate.
+    + intros Hin. assert (existsb (N.eqb x) sib = true) by (apply existsb_exists; exists x; split; [exact Hin|apply N.eqb_refl]).
+      rewrite H in H2. discriminate.
+  - change (indep_b (x :: p') (y :: y2 :: q'') sib) with (negb (x =? y)%N || indep_b p' (y2 :: q'') sib) in H.
+    change (indep (x :: p') (y :: y2 :: q'') sib) with (x <> y \/ (x = y /\ indep p' (y2 :: q'') sib)).
+    destruct (x =? y)%N eqn:E.
+    + apply N.eqb_eq in E. subst. cbn [negb orb] in H. right. split; [reflexivity|]. apply IH. exact H.
+    + left. apply N.eqb_neq. exact E.
+Qed.
+
+Lemma props_separate_b_sound e props : props_separate_b e props = true -> props_separate e props.
+Proof.
+  intros H q1 q2 H1 H2 Hne Hq. unfold props_separate_b in H.
+  rewrite forallb_forall in H. specialize (H q1 H1). rewrite forallb_forall in H. specialize (H q2 H2).
+  rewrite Hne in H. cbn [orb] in H.
+  destruct (p_path q1) as [|n1 r1] eqn:E1; [congruence|].
+  unfold indep_prop_b in H. unfold indep_prop.
+  destruct (p_path q2) as [|n2 r2] eqn:E2.
+  - destruct (p_ty q2); try exact I. destruct (lookup e ref) as [[| ps |]|]; try exact I.
+    rewrite forallb_forall in H. apply Forall_forall. intros q' Hq'. specialize (H q' Hq').
+    destruct (p_path q') as [|n3 r3] eqn:E3; [discriminate|]. split; [discriminate|].
+    apply indep_b_sound. exact H.
+  - apply indep_b_sound. exact H.
+Qed.
+
+(* ---------------------------------------------------------------- document level, byte level *)
+From J5V.proofs Require Import CodecDecTreeProofs.
+
+(* JSONToProto succeeded on a document that the tokenizer reads as the object ms: every non-null
+   member of the root object was decoded by its property's decoder, and the field it wrote is
+   unchanged in the final message *)
+Theorem document_members_stored orc e root props bs ms rest me m' :
+  lookup e root = Some (SObject props) -> props_separate e props ->
+  lex bs = (tokens_of (JObj ms) ++ rest, me) ->
+  decode_bytes orc e root bs = Ok m' ->
+  forall key v p, In (key, v) ms -> v <> JNull -> find_prop props key = Some p -> p_path p <> [] ->
+  exists f0 m0 m1, tr_present orc e f0 1 p v m0 = Ok m1 /\ get_path (p_path p) m' = get_path (p_path p) m1.
+Proof.
+  intros Hl Hsep Hlex Hd key v p Hin Hv Hp Hq.
+  rewrite (decode_bytes_tree orc e root bs (JObj ms) rest me Hlex) in Hd.
+  unfold tr_decode in Hd. rewrite Hl in Hd.
+  exact (member_survives orc e props Hsep _ 0%N ms [] [] m' Hd key v p Hin Hv Hp Hq).
+Qed.
+
+Theorem document_scalars_stored orc e root props bs ms rest me m' :
+  lookup e root = Some (SObject props) -> props_separate e props ->
+  lex bs = (tokens_of (JObj ms) ++ rest, me) ->
+  decode_bytes orc e root bs = Ok m' ->
+  forall key v p k, In (key, v) ms -> v <> JNull -> find_prop props key = Some p ->
+    p_ty p = FScalar k -> p_path p <> [] ->
+    exists x, scalar_from_go orc k (goval_of_json v) = Ok x /\ get_path (p_path p) m' = stored_scalar p x.
+Proof.
+  intros Hl Hsep Hlex Hd key v p k Hin Hv Hp Hk Hq.
+  rewrite (decode_bytes_tree orc e root bs (JObj ms) rest me Hlex) in Hd.
+  unfold tr_decode in Hd. rewrite Hl in Hd.
+  exact (scalar_member_stored orc e props Hsep _ 0%N ms [] [] m' Hd key v p k Hin Hv Hp Hk Hq).
+Qed.
